@@ -491,6 +491,111 @@ def run(rep: Report, prog: Program, tier: str) -> None:
     else:
         rep.ok("C19-TRACK", "RTCRtpReceiver.stop: end-of-track signalled whether or not the receiver had been started", sample=f"{len(act.returns)} exit(s)")
 
+    # ---------------- C19-APIGUARD: nothing new is created on a closed connection - every public method that creates a transceiver, a transport or a data channel
+    # checks the closed latch first (or validates a description, which rejects `closed`); sibling agreement over the public API
+    rep.rule("C19-APIGUARD", "public RTCPeerConnection methods that create transceivers / transports / data channels are fenced by __assertNotClosed() or the description validation", min_instances=4)
+    pc_cls = prog.cls(pc)
+    creators = ("self.__createTransceiver", "self.__createSctpTransport", "self.__createDtlsTransport", "RTCDataChannel", "RTCRtpTransceiver")
+    n_guarded = 0
+    for fi in pc_cls.methods.values():
+        if fi.name.startswith("_") or fi.name == "__init__":
+            continue
+        sites: List[Any] = []
+
+        def _ev_g(node, f):
+            if isinstance(node, ast.Call) and unparse(node.func) in ("self.__assertNotClosed", "self.__validate_description"):
+                return ["fenced"]
+            return []
+
+        def _ob_g(node, st, f, sites=sites):
+            if isinstance(node, ast.Call) and unparse(node.func) in creators:
+                sites.append((node, "fenced" in st.events))
+        EventsDomain(prog, _ev_g, _ob_g).run(fi)
+        for node, ok in sites:
+            n_guarded += 1
+            if ok:
+                rep.ok("C19-APIGUARD", f"{fi.name}: `{unparse(node.func)}` after the closed check", sample=f"line {node.lineno}")
+            else:
+                rep.fail(mk_finding(prog, PROP, "C19-APIGUARD", fi, node, f"{fi.name}() reaches `{unparse(node.func)}(...)` without __assertNotClosed() (its sibling methods have it): called on a closed connection it "
+                                    "creates an object that close() will never tear down - a data channel that stays `connecting`, transports that are never stopped", construct=f"{fi.name} creates objects on a closed connection"))
+    if n_guarded < 4:
+        raise AnalysisError(f"C19-APIGUARD: only {n_guarded} creation sites found in the public API")
+
+    # ---------------- C19-ICECLOSED: `closed` is final for the ICE transport, and a connectivity check that completes after stop() does not leave aioice running
+    rep.rule("C19-ICECLOSED", "RTCIceTransport: no state change out of `closed`; start() closes the connection again when connect() returns after stop()", min_instances=3)
+    from types import SimpleNamespace as _NSi
+
+    from engine.index import Unknown as _UnkI
+    from engine.peval import Evaluator as _EvI, Raised as _RsI
+
+    from .objhook import make_hook as _mkhI
+    ice_cls = prog.cls("rtcicetransport.RTCIceTransport")
+    set_state = prog.find_method(ice_cls, "__setState")
+    ice_start = prog.func("rtcicetransport.RTCIceTransport.start")
+    if set_state is None:
+        raise AnalysisError("RTCIceTransport.__setState not found")
+    emitted: List[Any] = []
+    closed_calls: List[Any] = []
+
+    def _ix(call, evl):
+        nm = unparse(call.func)
+        if nm in ("self.emit", "self.__log_debug", "self.iceGatherer.remove_all_listeners", "self.remove_all_listeners"):
+            if nm == "self.emit":
+                emitted.append(evl.ev(call.args[0]))
+            return None
+        if nm == "self._connection.connect":
+            # stop() runs while the checks are completing, then connect() reports success
+            evl.env["self"].__dict__["__state"] = "closed" if evl.env["self"].stop_during_connect else evl.env["self"].__dict__["__state"]
+            return None
+        if nm == "self._connection.close":
+            closed_calls.append(True)
+            return None
+        if nm == "asyncio.Event":
+            return _NSi(is_set=False)
+        if nm in ("self.__start.set", "self.__start.wait"):
+            return None
+        if nm == "asyncio.ensure_future":
+            return _NSi()
+        if nm == "self._monitor":
+            return None
+        return NotImplemented
+    ihk = _mkhI(prog, _ix)
+    for new_state in ("checking", "completed", "failed", "new"):
+        del emitted[:]
+        me = _NSi(__cls__=ice_cls, role="controlling", iceGatherer=_NSi())
+        setattr(me, "__state", "closed")
+        try:
+            ihk.run_method(set_state, me, [new_state], {})
+        except (_RsI, _UnkI) as ex:
+            raise AnalysisError(f"C19-ICECLOSED cannot evaluate __setState: {ex}")
+        if getattr(me, "__state") == "closed" and not emitted:
+            rep.ok("C19-ICECLOSED", f"__setState({new_state!r}) on a closed transport: ignored")
+        else:
+            rep.fail(mk_finding(prog, PROP, "C19-ICECLOSED", set_state, set_state.node, f"a closed ICE transport becomes {getattr(me, '__state')!r} (events {emitted}) when __setState({new_state!r}) runs: start() resumes after "
+                                "stop() and reports the outcome of the connectivity checks, the transport leaves `closed` after close() has returned", construct="ICE transport leaves closed"))
+    for stop_during in (True, False):
+        del closed_calls[:]
+        me = _NSi(__cls__=ice_cls, role="controlling", iceGatherer=_NSi(), stop_during_connect=stop_during,
+                  _connection=_NSi(remote_is_lite=False, remote_username=None, remote_password=None))
+        for k_, v_ in {"__state": "new", "__start": None, "__monitor_task": None}.items():
+            setattr(me, k_, v_)
+        try:
+            ihk.run_method(ice_start, me, [_NSi(iceLite=False, usernameFragment="u", password="p")], {})
+        except (_RsI, _UnkI) as ex:
+            raise AnalysisError(f"C19-ICECLOSED cannot evaluate start(): {ex}")
+        state_now = getattr(me, "__state")
+        if stop_during:
+            if state_now == "closed" and closed_calls:
+                rep.ok("C19-ICECLOSED", "start(): connect() succeeds after stop(): the connection is closed again, the state stays closed")
+            else:
+                rep.fail(mk_finding(prog, PROP, "C19-ICECLOSED", ice_start, ice_start.node, f"stop() ran while connect() was completing and connect() then succeeded: the transport ends {state_now!r} and the "
+                                    f"connection is {'closed again' if closed_calls else 'not closed again'}: aioice has started its consent checks for a connection nobody will ever close",
+                                    construct="connect() completing after stop() is not undone"))
+        elif state_now != "completed":
+            rep.fail(mk_finding(prog, PROP, "C19-ICECLOSED", ice_start, ice_start.node, f"after a successful connect() the transport is {state_now!r}", construct="ICE start does not complete"))
+        else:
+            rep.ok("C19-ICECLOSED", "start(): successful connect() ends in `completed`")
+
     # ---------------- C19-SCTPSTOP: stop() of the SCTP transport always runs the CLOSED transition - that is what closes channels which were created after the
     # association had already ended (they live only in the pending-message queue)
     rep.rule("C19-SCTPSTOP", "RTCSctpTransport.stop() reaches _set_state(CLOSED) on every normal exit", min_instances=1)
